@@ -385,31 +385,42 @@ Proof.
   - match goal with |- _ <= _ + npmax 0 ?x => destruct (npmax_spec 0 x) as [[H ->]|[H ->]]; lra end.
 Qed.
 
-Lemma bump1_feed_ceiling b f inc maxb maxf avail :
-  snd (bump1 b f inc maxb maxf avail) <= Qmax f maxf /\
-  snd (bump1 b f inc maxb maxf avail) <= Qmax f (f + inc).
+(* the clamped potential increase: non-negative, never beyond the ceiling, never beyond the requested increase *)
+Lemma potential_spec x inc mx : let p := npmax 0 (npmin (x + inc) mx - x) in
+  0 <= p /\ x + p <= Qmax x mx /\ x + p <= x + Qmax inc 0.
 Proof.
-  unfold bump1. cbv zeta. simpl snd.
-  match goal with |- context [npmax 0 (npmin ?x ?y)] =>
-    destruct (npmin_spec x y) as [[H1 E1]|[H1 E1]]; rewrite E1; clear E1;
-    destruct (npmax_spec 0 x) as [[H2 E2]|[H2 E2]]; try rewrite E2;
-    destruct (npmax_spec 0 y) as [[H3 E3]|[H3 E3]]; try rewrite E3 end;
-  destruct (npmin_spec (f + inc) maxf) as [[H4 E4]|[H4 E4]]; rewrite E4 in *;
-  destruct (Q.max_spec f maxf) as [[M1 M2]|[M1 M2]]; rewrite M2;
-  destruct (Q.max_spec f (f + inc)) as [[M3 M4]|[M3 M4]]; rewrite M4; split; lra.
+  cbv zeta.
+  destruct (npmin_spec (x + inc) mx) as [[H1 E1]|[H1 E1]]; rewrite E1;
+  match goal with |- context [npmax 0 ?a] => destruct (npmax_spec 0 a) as [[H2 E2]|[H2 E2]]; rewrite E2 end;
+  destruct (Q.max_spec x mx) as [[M1 M2]|[M1 M2]]; rewrite M2;
+  destruct (Q.max_spec inc 0) as [[M3 M4]|[M3 M4]]; rewrite M4; repeat split; lra.
 Qed.
 
-Lemma bump1_biofuel_ceiling b f inc maxb maxf avail :
-  b <= maxb -> f <= maxf -> 0 <= inc ->
-  fst (bump1 b f inc maxb maxf avail) <= maxb /\ fst (bump1 b f inc maxb maxf avail) <= b + inc.
+(* feed: for ARBITRARY inputs *)
+Lemma bump1_feed_ceiling b f inc maxb maxf avail :
+  snd (bump1 b f inc maxb maxf avail) <= Qmax f maxf /\
+  snd (bump1 b f inc maxb maxf avail) <= f + Qmax inc 0.
 Proof.
-  intros Hb Hf Hi. unfold bump1. cbv zeta. simpl fst.
-  set (pb := npmin (b + inc) maxb - b).
-  set (pf := npmin (f + inc) maxf - f).
-  assert (Pb : 0 <= pb /\ pb <= maxb - b /\ pb <= inc).
-  { unfold pb. destruct (npmin_spec (b + inc) maxb) as [[H ->]|[H ->]]; lra. }
-  assert (Pf : 0 <= pf).
-  { unfold pf. destruct (npmin_spec (f + inc) maxf) as [[H ->]|[H ->]]; lra. }
+  unfold bump1. cbv zeta. simpl snd.
+  destruct (potential_spec f inc maxf) as (P0 & P1 & P2). cbv zeta in P0, P1, P2.
+  set (pf := npmax 0 (npmin (f + inc) maxf - f)) in *.
+  match goal with |- context [npmax 0 (npmin ?x pf)] =>
+    destruct (npmin_spec x pf) as [[H1 E1]|[H1 E1]]; rewrite E1; clear E1;
+    destruct (npmax_spec 0 x) as [[H2 E2]|[H2 E2]]; try rewrite E2;
+    destruct (npmax_spec 0 pf) as [[H3 E3]|[H3 E3]]; try rewrite E3 end; split; lra.
+Qed.
+
+(* biofuel: for ARBITRARY inputs (any sign of the increase and of the availability, quantities already above
+   their demand or not) *)
+Lemma bump1_biofuel_ceiling_any b f inc maxb maxf avail :
+  fst (bump1 b f inc maxb maxf avail) <= Qmax b maxb /\
+  fst (bump1 b f inc maxb maxf avail) <= b + Qmax inc 0.
+Proof.
+  unfold bump1. cbv zeta. simpl fst.
+  destruct (potential_spec b inc maxb) as (Pb0 & Pb1 & Pb2). cbv zeta in Pb0, Pb1, Pb2.
+  destruct (potential_spec f inc maxf) as (Pf0 & _ & _). cbv zeta in Pf0.
+  set (pb := npmax 0 (npmin (b + inc) maxb - b)) in *.
+  set (pf := npmax 0 (npmin (f + inc) maxf - f)) in *.
   set (tp := pb + pf).
   set (allowed := if Qle_bool (tp + b + f) avail then tp else avail - b - f).
   assert (Al : allowed <= tp).
@@ -424,13 +435,31 @@ Proof.
   { assert (allowed * prop <= d * prop).
     { apply Qmult_le_compat_r; [unfold d, regulariser; lra|exact Pr0]. }
     rewrite <- Pr. lra. }
-  destruct (npmax_spec 0 (allowed * prop)) as [[H ->]|[H ->]]; lra.
+  destruct (npmax_spec 0 (allowed * prop)) as [[H ->]|[H ->]]; split; lra.
 Qed.
 
-(* the hypotheses are needed: feed already above its demand lets biofuel overshoot its own demand *)
-Lemma bump1_biofuel_ceiling_needs_domain :
+(* nothing eaten and nothing requested: feed stays 0, whatever the ceilings and the availability *)
+Lemma bump1_no_request b f inc maxb maxf avail : f == 0 -> inc == 0 -> snd (bump1 b f inc maxb maxf avail) == 0.
+Proof.
+  intros Hf Hi. destruct (bump1_feed_ceiling b f inc maxb maxf avail) as [_ U].
+  destruct (bump1_never_lowers b f inc maxb maxf avail) as [_ L].
+  destruct (Q.max_spec inc 0) as [[M1 M2]|[M1 M2]]; rewrite M2 in U; lra.
+Qed.
+
+(* the in-domain form (kept: used by the composition theorems of the rounds) *)
+Lemma bump1_biofuel_ceiling b f inc maxb maxf avail :
+  b <= maxb -> f <= maxf -> 0 <= inc ->
+  fst (bump1 b f inc maxb maxf avail) <= maxb /\ fst (bump1 b f inc maxb maxf avail) <= b + inc.
+Proof.
+  intros Hb _ Hi. destruct (bump1_biofuel_ceiling_any b f inc maxb maxf avail) as [A B].
+  rewrite (Q.max_r b maxb Hb) in A. rewrite (Q.max_l inc 0 Hi) in B. split; assumption.
+Qed.
+
+(* the defect repaired by the clamp fix: with feed already above its demand (negative potential feed increase)
+   biofuel was pushed above its own demand, all inputs non-negative *)
+Lemma bump1_before_clamp_fix_refuted :
   exists b f inc maxb maxf avail, 0 <= b /\ b <= maxb /\ 0 <= f /\ 0 <= inc /\ 0 <= avail /\ maxf < f /\
-    maxb < fst (bump1 b f inc maxb maxf avail).
+    maxb < fst (bump1_before_clamp_fix b f inc maxb maxf avail).
 Proof. exists 9, 5, 1, 10, 2, 0. vm_compute. repeat split; discriminate || reflexivity. Qed.
 
 (* the defect repaired by fix 5ea9ff8: without the np.minimum the regulariser leaks into feed *)
